@@ -10,6 +10,16 @@ from .. import tlc
 from ..common import ROOT, MachineryError
 
 LEVEL = "model_checking"
+
+
+def _listfile(paths):
+    """argv cannot carry thousands of paths: write them to a file and pass @file"""
+    import tempfile
+    f = tempfile.NamedTemporaryFile("w", suffix=".json", delete=False, dir=__import__("os").path.dirname(paths[0]))
+    json.dump(paths, f)
+    f.close()
+    return "@" + f.name
+
 INV = ["TypeOK", "ProgressIsNewest", "ResultsExact", "AnswersFaithful"]
 REPLAY = r'''
 import sys, json, warnings, logging
@@ -17,7 +27,7 @@ warnings.filterwarnings("ignore"); logging.disable(logging.CRITICAL)
 from pathlib import Path
 from harness import tlc
 from harness.drive import gateway
-files, out = json.loads(sys.argv[1]), sys.argv[2]
+files, out = json.load(open(sys.argv[1][1:])) if sys.argv[1].startswith("@") else json.loads(sys.argv[1]), sys.argv[2]
 res = []
 for f in files:
     beh = tlc.parse_sim_file(Path(f))
@@ -54,7 +64,7 @@ def run(ctx):
     if not files:
         raise MachineryError("no behaviours from TLC simulation:\n" + rs.out[-2000:])
     rf = ctx.scratch / "replay.json"
-    p = subprocess.run([sys.executable, "-W", "ignore", "-c", REPLAY, json.dumps([str(f) for f in files]), str(rf)], cwd=ROOT,
+    p = subprocess.run([sys.executable, "-W", "ignore", "-c", REPLAY, _listfile([str(f) for f in files]), str(rf)], cwd=ROOT,
                        stdout=subprocess.PIPE, stderr=subprocess.STDOUT, text=True, timeout=1800)
     if p.returncode != 0 or not rf.exists():
         raise MachineryError("replay failed:\n" + p.stdout[-3000:])
